@@ -94,11 +94,22 @@ class Run:
                 run.tasks.append((x, fut))
                 run.started.append(x)
                 return await fut
-            n = s.map_async(work, parallelism=sp["parallelism"])
+            if sp.get("failmode") == "call":
+                # a plain function handing back an awaitable: for the bad elements it raises synchronously, at call
+                # time, before any coroutine exists
+                def fetch(x):
+                    if x in (sp.get("userfail") or []):
+                        raise ValueError("mapped function fails at call time for %r" % (x,))
+                    return work(x)
+                n = s.map_async(fetch, parallelism=sp["parallelism"])
+            else:
+                n = s.map_async(work, parallelism=sp["parallelism"])
         elif k == "latest":
             n = s.latest()
         elif k == "plain":
             n = s.map(lambda x: x)
+        elif k == "flatten":
+            n = s.flatten()
         else:
             raise KeyError(k)
         self.node = n
